@@ -446,8 +446,8 @@ class Gen:
                     at = list(first[1])
                     if rng.random() < 0.5:
                         at[0], at[1] = at[1], at[0]
-                    if rng.random() < 0.3:
-                        j = rng.choice((0, 1, 4, 5))
+                    if rng.random() < 0.5:
+                        j = rng.choice((0, 1, 4, 5, 4, 5))
                         others = [a for a in m.sorted_atoms() if a not in at]
                         at[j] = rng.choice(others) if others and rng.random() < 0.6 else None
                     c = rng.choice(geom.BOND_CLASSES)
@@ -861,6 +861,9 @@ class Gen:
         if k == "subgraph":
             ats = m.sorted_atoms()
             S = [a for a in ats if rng.random() < 0.7]
+            cuts = self.cut_sets(m) if m.has_changes else []
+            if cuts and rng.random() < 0.5:
+                S = list(rng.choice(cuts))
             rng.shuffle(S)
             return [dict(k="subgraph", src=src, dst=dst, atoms=S,
                          **{"as": rng.choice(("list", "set", "tuple", "iter", "gen"))})]
@@ -921,6 +924,27 @@ class Gen:
         if len(set(out)) != len(out):
             mp = {a: a for a in keys}
         return [[a, b] for a, b in sorted(mp.items())]
+
+    def cut_sets(self, m):
+        """atom subsets that cut through / just contain stereo changes:
+        (a) everything except one atom that only some of the descriptors of one
+        change table mention, (b) exactly the atoms of one change table plus a
+        few others"""
+        rng = self.rng
+        out = []
+        ats = m.sorted_atoms()
+        for tab in (m.achange, m.bchange):
+            for _c, t in sorted(tab.items(), key=lambda kv: repr(kv[0])):
+                sets = [set(geom.desc_atoms(d)) for d in t.values()]
+                union = set().union(*sets) if sets else set()
+                common = set.intersection(*sets) if sets else set()
+                for x in sorted(union - common):
+                    if x in m.atoms:
+                        out.append([a for a in ats if a != x])
+                if union and union <= set(ats):
+                    extra = [a for a in ats if a not in union and rng.random() < 0.4]
+                    out.append(sorted(union) + extra)
+        return out
 
     def targeted_edit(self, s):
         """an edit that mutates a nested container in place - the places where
@@ -1710,12 +1734,18 @@ class Gen:
         if r < 0.45:
             ats = m.sorted_atoms()
             mode = rng.randrange(5)
-            if mode == 4 and m.bonds:
+            cuts0 = self.cut_sets(m) if m.has_changes else []
+            if cuts0 and rng.random() < 0.5:
+                S = list(rng.choice(cuts0))
+            elif mode == 4 and m.bonds:
                 # a small connected cut-out (a bond and maybe a neighbour)
                 x, y = self.present_bond(m)
                 S = [x, y] + [z for z in sorted(m.nbrs(x) | m.nbrs(y)) if z not in (x, y) and rng.random() < 0.3][:2]
             elif mode == 0 or mode == 4:
                 S = [a for a in ats if rng.random() < 0.6]
+                cuts = self.cut_sets(m) if m.has_changes else []
+                if cuts and rng.random() < 0.6:
+                    S = list(rng.choice(cuts))
             elif mode == 1 and m.atoms:
                 S = sorted(rng.choice(m.components()))
             elif mode == 2:
